@@ -42,7 +42,7 @@ META = {
     "technique": "Lean 4 proofs (verifyHeader = the statement's rule list incl. int64/uint64 arithmetic; calcDifficultyHFX = era-by-era formula for all ordered fork maps, >= era minimum, resets; "
                  "VerifyUncles = declarative uncle rules; VerifyHeaders coordinator emits in order for every completion order and equals one-by-one verification) over regenerated constants/fork maps, "
                  "tied to consensus/aquahash by differential correspondence on boundary lattices",
-    "text": "Theorems verifyHeader_iff, verifyHeader_reports_first_violation, difficulty_spec(_builtin), difficulty_ge_min(_builtin), difficulty_reset, verifyUncles_iff_partial, verifyUncles_iff_with_exemptions (all heights), "
+    "text": "Theorems verifyHeader_iff, verifyHeader_reports_first_violation, difficulty_spec(_builtin), difficulty_ge_min(_builtin), difficulty_reset, verifyUncles_iff_partial, verifyUncles_iff_with_exemptions (all heights), uncle_limit_depends_on_block_number_only, "
             "coordinator_complete/prefix, batch_equals_sequential hold for all inputs of the Lean model of consensus/aquahash; gen_constants_are_the_statements / gen_schedules_of_record / "
             "builtin_schedules_ordered re-check the regenerated Go constants and fork maps every run; the real CalcDifficulty, verifyHeader, VerifyHeader, VerifyHeaders (GOMAXPROCS 1..16) and "
             "VerifyUncles are run on >30k boundary cases per run and must agree with the model and with the Spec.",
